@@ -44,7 +44,8 @@ Took(name) == acts' = acts \cup {name}
 \* resp. the 47th below the trailer -- the parser's nesting limit).
 Lay(n, k, tree, nums, g1, refs, two, bms, zero, red) ==
     [n |-> n, k |-> k, tree |-> tree, nums |-> nums, g1 |-> g1, refs |-> refs, two |-> two, bms |-> bms,
-     zero |-> zero, red |-> red, shared |-> FALSE, deep |-> 0, dupk |-> FALSE, bdang |-> {}]
+     zero |-> zero, red |-> red, shared |-> FALSE, deep |-> 0, dupk |-> FALSE, bdang |-> {},
+     bunr |-> FALSE, s0 |-> FALSE, gv |-> 1, fit |-> FALSE]
 Deep(L, d) == [L EXCEPT !.deep = d]
 \* dupk: the first page is listed a second time at the end of Kids ([P1, P2, P1]); bdang: ids offered as
 \* bookmark targets although they name no object; shared: see above
@@ -63,6 +64,15 @@ LayDup3    == WithDup(Lay(5, 3, TRUE, {1, 2, 3, 4, 6}, 0, 0, FALSE, 1, FALSE, TR
 LayBmDang  == WithBmDang(Lay(3, 1, TRUE, {1, 3, 5}, 0, 0, FALSE, 2, FALSE, TRUE), {<<2, 0>>, <<9, 0>>})
 LayShared2 == Shared(Lay(4, 2, TRUE, {1, 2, 3}, 2, 0, FALSE, 1, FALSE, TRUE))
 LayShared1 == Shared(Lay(4, 1, TRUE, {1, 2, 3}, 2, 1, FALSE, 1, FALSE, TRUE))
+\* audit shapes: bunr -- the further objects (with their reference slot; the trailer need not reach them) are
+\* offered as bookmark targets; s0 -- start value 0 is offered (with the (0,0) bookmark target, dangling
+\* references and gv = 65535 as the non-zero generation, so the object that receives number 0 can carry
+\* the generation of the dangling sink); fit -- the exact-fit start value Limit - n + 1 is offered
+LayBmUnr   == [Lay(4, 1, TRUE, {1, 2, 3, 5}, 0, 1, FALSE, 1, FALSE, TRUE) EXCEPT !.bunr = TRUE]
+LayBmUnrS  == [Lay(2, 0, FALSE, {1, 3}, 0, 1, FALSE, 1, FALSE, TRUE) EXCEPT !.bunr = TRUE]     \* no page tree at all
+LayStart0  == [Lay(3, 1, TRUE, {1, 3, 5}, 1, 1, FALSE, 2, TRUE, TRUE) EXCEPT !.s0 = TRUE, !.gv = 65535]
+LayFit3    == [Lay(3, 1, TRUE, {1, 3, 5}, 0, 0, FALSE, 1, FALSE, TRUE) EXCEPT !.fit = TRUE]
+LayFit1    == [Lay(1, 0, FALSE, {1, 3}, 0, 1, FALSE, 0, FALSE, TRUE) EXCEPT !.fit = TRUE]
 LayShared3 == Shared(Lay(5, 3, TRUE, {1, 2, 3}, 2, 0, FALSE, 0, FALSE, TRUE))     \* two of three pages under one number
 
 LayoutsQuick ==
@@ -72,7 +82,7 @@ LayoutsQuick ==
      Lay(3, 1, TRUE, {1, 2, 3, 5}, 1, 1, FALSE, 1, FALSE, TRUE),
      Lay(4, 2, TRUE, {1, 2, 3, 5}, 1, 1, FALSE, 2, FALSE, TRUE),
      Lay(4, 1, TRUE, {1, 2, 3, 5}, 0, 1, FALSE, 1, FALSE, TRUE),
-     LayDeep(47), LayBm3, LayDup2, LayBmDang, LayShared2}
+     LayDeep(47), LayBm3, LayDup2, LayBmDang, LayShared2, LayBmUnr, LayStart0, LayFit3, LayFit1}
 
 \* Negative controls of the declarative layer (the repaired defects seeded back into the design):
 \*  MC_Renumber_quick_seeded.cfg   bookmark.chain, dangling.capture, dangling.capture.pageorder, panic.empty0
@@ -80,8 +90,15 @@ LayoutsQuick ==
 \*                                 on the layouts that do not have the shapes of the later three;
 \*  MC_Renumber_quick_seeded2.cfg  pageorder.dupkids, pageorder.numclash, bookmark.dangling.capture
 \*                                 (DevDup, DevClash, DevBmDang) on the layouts that have those shapes.
-LayoutsFormer == LayoutsQuick \ {LayDup2, LayBmDang, LayShared2}
+LayoutsFormer == {Lay(0, 0, FALSE, {1}, 0, 1, FALSE, 0, FALSE, TRUE),
+                  Lay(3, 1, TRUE, {1, 2, 3, 5}, 1, 1, FALSE, 1, FALSE, TRUE),
+                  Lay(4, 2, TRUE, {1, 2, 3, 5}, 1, 1, FALSE, 2, FALSE, TRUE)}
 LayoutsLater  == {LayDup2, LayBmDang, LayShared2, Lay(0, 0, FALSE, {1}, 0, 0, FALSE, 0, FALSE, TRUE)}
+\*  MC_Renumber_quick_seeded3.cfg  bookmark.target.unreachable, start0.capture, panic.exactfit (DevReach,
+\*                                 DevZero, DevFit = "panic") on the audit layouts; _seeded4: DevFit = "wrap",
+\*                                 max_id.exactfit.
+LayoutsAudit  == {LayBmUnrS, LayStart0, LayFit3, LayFit1, Lay(0, 0, FALSE, {1}, 0, 0, FALSE, 0, FALSE, TRUE)}
+LayoutsFit    == {LayFit3, LayFit1, Lay(0, 0, FALSE, {1}, 0, 0, FALSE, 0, FALSE, TRUE)}
 
 LayoutsThorough ==
     {Lay(0, 0, FALSE, {1}, 0, 1, FALSE, 0, FALSE, FALSE),
@@ -95,7 +112,7 @@ LayoutsThorough ==
      Lay(5, 3, TRUE, {1, 2, 3, 4, 6}, 1, 1, FALSE, 3, FALSE, TRUE),
      Lay(5, 2, TRUE, {1, 2, 3, 4, 6}, 0, 1, FALSE, 2, FALSE, TRUE),
      LayDeep(1), LayDeep(2), LayDeep(10), LayDeep(46), LayDeep(47), LayBm3,
-     LayDup2, LayDup3, LayBmDang, LayShared2, LayShared1, LayShared3}
+     LayDup2, LayDup3, LayBmDang, LayShared2, LayShared1, LayShared3, LayBmUnr, LayStart0, LayFit3, LayFit1}
 
 \* smallest layout that takes every action (coverage run)
 LayoutsCov == {Lay(0, 0, FALSE, {1}, 0, 0, FALSE, 0, FALSE, TRUE), Lay(4, 2, TRUE, {1, 2, 3, 5}, 0, 0, FALSE, 1, FALSE, TRUE)}
@@ -161,7 +178,7 @@ Build1 ==
     /\ pc = "build1"
     /\ \E num \in [Roles(lay) -> lay.nums] :
        \E g1 \in SUBSET Roles(lay) :
-          LET idf == [r \in Roles(lay) |-> <<num[r], IF r \in g1 THEN 1 ELSE 0>>] IN
+          LET idf == [r \in Roles(lay) |-> <<num[r], IF r \in g1 THEN lay.gv ELSE 0>>] IN
           /\ Cardinality(g1) <= lay.g1
           /\ \A r1, r2 \in Roles(lay) : r1 # r2 => (IF lay.shared THEN idf[r1] # idf[r2] ELSE num[r1] # num[r2])
           /\ \A r1, r2 \in OtherRoles(lay) : r1 < r2 => IdLess(idf[r1], idf[r2])  \* interchangeable objects
@@ -183,6 +200,7 @@ Build2 ==
 
 BmTargets == {ids[r] : r \in PageRoles(lay)} \cup (IF lay.zero THEN {<<0, 0>>} ELSE {})
              \cup (lay.bdang \ {ids[r] : r \in Roles(lay)})
+             \cup (IF lay.bunr THEN {ids[r] : r \in OtherRoles(lay)} ELSE {})
 BmChoices == {<<>>}
              \cup (IF lay.bms >= 1 THEN {<<t>> : t \in BmTargets} ELSE {})
              \cup (IF lay.bms >= 2 THEN {<<p[1], p[2]>> : p \in {q \in BmTargets \X BmTargets : IdLess(q[1], q[2])}} ELSE {})
@@ -192,7 +210,8 @@ BmChoices == {<<>>}
 \* bookmarks and the start value: the call begins
 Build3 ==
     /\ pc = "build3"
-    /\ \E bms \in BmChoices : \E st \in Starts \cup (IF lay.n = 0 THEN {0} ELSE {}) :
+    /\ \E bms \in BmChoices : \E st \in Starts \cup (IF lay.n = 0 \/ lay.s0 THEN {0} ELSE {})
+                                                \cup (IF lay.fit /\ lay.n > 0 THEN {Limit - lay.n + 1} ELSE {}) :
           LET d == BuildDoc(lay, ids, slots, bms) IN
           /\ before' = d /\ start' = st /\ s' = ImplInit(d)
     /\ pc' = "begin" /\ Took("Build3")
@@ -209,7 +228,7 @@ DenseFinishS ==
     /\ DenseFinish /\ UNCHANGED <<lay, ids, slots>> /\ Took("DenseFinishS")
 DenseFinishRepaired ==
     /\ ~DevUnder /\ pc = "dpair" /\ i > Len(ord) /\ start + Cardinality(live) = 0
-    /\ s' = [FinishPass(s, live, DevChain, DevDang, DevBmDang) EXCEPT !.max_id = 0]
+    /\ s' = [FinishPass(s, live, DevChain, DevDang, DevBmDang, DenseOpt(DevRec, start, live)) EXCEPT !.max_id = 0]
     /\ pc' = "done"
     /\ UNCHANGED <<before, start, i, pg, srt, ord, live, lay, ids, slots>> /\ Took("DenseFinishRepaired")
 
@@ -220,17 +239,19 @@ Spec == Init /\ [][Next]_vars
 
 -----------------------------------------------------------------------------
 \* the failing clauses, classified against the algorithm this run executes (its own switches)
-VerdictTags == IF s.panic THEN {"panic.empty0"} ELSE ClassifyX(before, After, start, DevRec)
-Verdict     == IF s.panic THEN "panic.empty0" ELSE VerdictOf(VerdictTags)
+VerdictTags == IF s.panic THEN {"panic.empty0"} ELSE IF s.panicfit THEN {"panic.exactfit"}
+               ELSE ClassifyX(before, After, start, DevRec)
+Verdict     == IF s.panic THEN "panic.empty0" ELSE IF s.panicfit THEN "panic.exactfit" ELSE VerdictOf(VerdictTags)
 
 Refines == pc = "done" => VerdictTags \subseteq Allowed          \* Allowed: set of clause tags ({} = "ok")
 
-Consistent == (pc = "done" /\ ~s.panic) => (Acceptable(before, After, start) <=> Fails(before, After, start) = {})
+Consistent == (pc = "done" /\ ~s.panic /\ ~s.panicfit) => (Acceptable(before, After, start) <=> Fails(before, After, start) = {})
 
 FunctionForm ==
     pc = "done" =>
         LET r == ImplRunX(before, start, DevRec) IN
         IF s.panic THEN r.panic
+        ELSE IF s.panicfit \/ r.panicfit THEN s.panicfit /\ r.panicfit
         ELSE r.panic \/ (r.objs = s.objs /\ r.trailer = s.trailer /\ r.max_id = s.max_id /\ r.bms = s.bms)
 
 \* the algorithm with every confirmed deviation repaired satisfies the property on the same input
@@ -255,7 +276,9 @@ EmitInv ==
         PrintT(<<"REPLAY", ToJson([before |-> JsonOfDoc(before),
                                    start  |-> start,
                                    v      |-> Verdict,
-                                   panic  |-> s.panic,
+                                   panic  |-> s.panic \/ s.panicfit,
+                                   limit  |-> IF before.objs # <<>> /\ start + Cardinality(DOMAIN before.objs) - 1 = Limit
+                                              THEN Limit ELSE 0,
                                    needs  |-> NeedsOrdering(pg),
                                    acts   |-> acts,
                                    impl   |-> JsonOfDoc(After)])>>)
